@@ -1,27 +1,8 @@
-"""Per-property configuration of the check driver."""
-
-KERNEL = "Coq 8.16.1 kernel incl. its vm_compute reduction machine (used for witnesses and for evaluating the model on cases); no native_compute"
-STDPP = "std++ 1.8.0 (definitions and lemmas, axiom-free)"
-GLUE = "the Rust harness /verif/harness (generators, canonical printing of implementation values as Coq terms), the python driver /verif/check (diff, classification)"
-
-PROPS = {
-    "C07": {
-        "mode": "c07",
-        "level": "proof",
-        "n": {"quick": 3200, "thorough": 96000},
-        "corr_name": "correspondence C07: Model/Crdt.v rv_merge vs ReplicatedValue::merge on obs",
-        "trusted_base": [
-            KERNEL, STDPP,
-            "axioms: none (Print Assumptions of every theorem in Props/C07.v: Closed under the global context)",
-            "hand-written model coq/Model/Crdt.v of lattice.rs / crdt_value.rs / replicated_value.rs, tied to the code by the correspondence check (same values, merges compared on the observable projection)",
-            GLUE,
-            "serde_json serialisation of ReplicatedValue (used to read private fields of the implementation's values)",
-        ],
-        "assumptions": [
-            "commutativity is proved under Compatible (no stamp reused for two different writes; values of different kinds carry different outer stamps) - an invariant of replicas whose clocks tick per write (C08)",
-            "associativity is proved for same-kind triples; mixed-kind triples are the known finding C07-mixed-assoc (refuted by theorem C07_merge_assoc_mixed_refuted)",
-            "u64 counters are modelled as unbounded N (merge only takes max, so no overflow arises in merge)",
-        ],
-        "explanation": "Theorems over the Gallina model for all values; the model is validated against the Rust merge on generated triples; the three laws are also evaluated directly on the Rust values to produce concrete failing inputs.",
-    },
-}
+"""Per-property configuration of the check driver: one JSON file per property in
+tools/propcfg/<id>.json (keys: mode, level, n{quick,thorough}, args{tier:{k:v}},
+coq_targets[], corr_name, trusted_base[], assumptions[], explanation, timeout{tier:s})."""
+import json, os, glob
+_D = os.path.join(os.path.dirname(os.path.abspath(__file__)), "propcfg")
+PROPS = {}
+for _p in sorted(glob.glob(os.path.join(_D, "C*.json"))):
+    PROPS[os.path.basename(_p)[:-5]] = json.load(open(_p))
